@@ -833,7 +833,9 @@ def check(rep, tier):
     statecensus.obligations(rep, 'C02', 'parser')
     rep.dropped = 'grammar actions read with ast.parse (the @_ decorators give the rules); the SLY driver and Lexer.tokenize are not symbolically executed here (C05 covers the driver)'
     rep.assume('type contracts of right-hand side symbols as written in value_for()', 'node constructors called by actions are executed symbolically when within reach (their raises are attributed to the action)',
-               'termination is not proved')
+               'termination: decided obligations are C02.lex.progress.* (no rule matches the empty string; scan position only moves forward) and C02.lr.acyclic.* (no nonterminal derives itself); '
+               'the step from them to "parse_sql returns" is a paper argument (loop variant len(text) - index of Lexer.tokenize; a run of reductions between two shifts is the reverse of a piece of a rightmost '
+               'derivation of the consumed text) - not mechanised; loops inside grammar actions run over finite operands (not checked separately)')
     rep.trust('pysym executor')
     api_obligations(rep)
     synthetic_obligations(rep)
